@@ -205,7 +205,7 @@ impl Monitor for C06 {
         for i in 0..tier.pick(12, 400) {
             v.push(format!("mono:{i}"));
         }
-        for i in 0..tier.pick(250, 20_000) {
+        for i in 0..tier.pick(500, 20_000) {
             v.push(format!("rnd:{i}"));
         }
         v
